@@ -26,5 +26,5 @@ for tag in tags:
                 bad += 1
             print(d, 'FALSE ALARM ' + str(alarms) if alarms else 'quiet', flush=True)
         finally:
-            subprocess.run(['git', '-C', '/repo', 'checkout', '--', '.'])
+            subprocess.run(['git', '-C', '/repo', 'checkout', '--', '.']); subprocess.run(['git', '-C', '/repo', 'clean', '-fdq', '--', 'packages'])
 print(f'{bad}/{tot} benign changes raise an alarm')
